@@ -54,6 +54,16 @@ theorem removeSpecies_lookup (s s' : Store) (sp : String) (prune : Bool) (hinv :
     s'.edges = (s.edges.map (·.strip sp)).filter (fun e => !e.isEmpty) :=
   removeSpecies_edges s s' sp prune hinv h
 
+/-- **C15, refinement part (merge).** A successful `merge` leaves every stored reaction untouched
+and appends one reaction per reaction of the other network, carrying that reaction's rule and
+stoichiometry; by `inv_reachable` the ids of the appended reactions are fresh. -/
+theorem merge_edges (s s' : Store) (other : List Edge) (pfx : Bool)
+    (h : s.merge other pfx = (s', .ok ())) :
+    ∃ added : List Edge, s'.edges = s.edges ++ added ∧
+      added.map (fun e => (e.rule, e.reactants, e.products)) =
+        other.map (fun e => (normRule (some e.rule), e.reactants, e.products)) :=
+  merge_edges' other pfx s s' h
+
 /-- **C15, incidence part.** For a reaction with well-formed sides the sparse incidence
 mapping the code builds has entry (produced − consumed) for every species. -/
 theorem incidence_spec (e : Edge) (hr : e.reactants.keys.Nodup) (hp : e.products.keys.Nodup)
